@@ -15,13 +15,13 @@ impl Poisson {
     /// # Errors
     /// Panics if `lambda <= 0.0`.
     pub fn new(lambda: f64) -> Self {
-        if lambda <= 0. {
+        if !(lambda > 0.) {
             panic!("`Lambda` must be positive.");
         }
         Poisson { lambda }
     }
     pub fn set_lambda(&mut self, lambda: f64) -> &mut Self {
-        if lambda <= 0. {
+        if !(lambda > 0.) {
             panic!("`Lambda` must be positive.")
         }
         self.lambda = lambda;
